@@ -457,22 +457,43 @@ def apply_sut(sut: TableSUT, op, aux):
     count carried by a row copy handed out by get_row)."""
     t = sut.table
     n = op["op"]
+    # "again": the very same argument object is passed a second time (only
+    # with the default clone=True, which promises that the argument is copied)
+    again = op.get("again")
     if n == "set_value":
         t.set_value(coord_of(op["c"]), op["v"], style=op.get("s"))
     elif n == "set_cell":
-        t.set_cell(coord_of(op["c"]), mk_cell(op["cell"]), clone=op.get("clone", True))
+        cell = mk_cell(op["cell"])
+        t.set_cell(coord_of(op["c"]), cell, clone=op.get("clone", True))
+        if again:
+            t.set_cell(coord_of(again["c"]), cell)
     elif n == "insert_cell":
-        t.insert_cell(coord_of(op["c"]), mk_cell(op["cell"]), clone=op.get("clone", True))
+        cell = mk_cell(op["cell"])
+        t.insert_cell(coord_of(op["c"]), cell, clone=op.get("clone", True))
+        if again:
+            t.insert_cell(coord_of(again["c"]), cell)
     elif n == "append_cell":
-        t.append_cell(yarg(op), mk_cell(op["cell"]), clone=op.get("clone", True))
+        cell = mk_cell(op["cell"])
+        t.append_cell(yarg(op), cell, clone=op.get("clone", True))
+        if again:
+            t.append_cell(again["y"], cell)
     elif n == "delete_cell":
         t.delete_cell(coord_of(op["c"]))
     elif n == "set_row":
-        t.set_row(yarg(op), mk_row(op["row"]) if op["row"] is not None else None, clone=op.get("clone", True))
+        row = mk_row(op["row"]) if op["row"] is not None else None
+        t.set_row(yarg(op), row, clone=op.get("clone", True))
+        if again:
+            t.set_row(again["y"], row)
     elif n == "insert_row":
-        t.insert_row(yarg(op), mk_row(op["row"]) if op["row"] is not None else None, clone=op.get("clone", True))
+        row = mk_row(op["row"]) if op["row"] is not None else None
+        t.insert_row(yarg(op), row, clone=op.get("clone", True))
+        if again:
+            t.insert_row(again["y"], row)
     elif n == "append_row":
-        t.append_row(mk_row(op["row"]) if op["row"] is not None else None, clone=op.get("clone", True))
+        row = mk_row(op["row"]) if op["row"] is not None else None
+        t.append_row(row, clone=op.get("clone", True))
+        if again:
+            t.append_row(row)
     elif n == "delete_row":
         t.delete_row(yarg(op))
     elif n == "extend_rows":
@@ -480,11 +501,20 @@ def apply_sut(sut: TableSUT, op, aux):
     elif n == "set_row_values":
         t.set_row_values(yarg(op), op["values"])
     elif n == "set_row_cells":
-        t.set_row_cells(yarg(op), [mk_cell(c) for c in op["cells"]])
+        cells = [mk_cell(c) for c in op["cells"]]
+        t.set_row_cells(yarg(op), cells)
+        if again:
+            t.set_row_cells(again["y"], cells)
     elif n == "set_values":
         t.set_values(op["values"], coord_of(op["c"]) if op.get("c") else None)
     elif n == "set_cells":
-        t.set_cells([[mk_cell(c) for c in r] for r in op["cells"]], coord_of(op["c"]) if op.get("c") else None)
+        if op.get("share"):
+            # every line is the same list of the same Cell objects
+            line = [mk_cell(c) for c in op["cells"][0]]
+            mat = [line for _ in op["cells"]]
+        else:
+            mat = [[mk_cell(c) for c in r] for r in op["cells"]]
+        t.set_cells(mat, coord_of(op["c"]) if op.get("c") else None)
     elif n == "set_column_values":
         t.set_column_values(xarg(op), op["values"])
     elif n == "set_column_cells":
@@ -525,8 +555,26 @@ def apply_sut(sut: TableSUT, op, aux):
         do_read(t, op)
     elif n == "restart":
         sut.restart(op.get("how", "xml"))
+    # ---- ops without grid-model semantics (not used by C01) ----
+    elif n == "rstrip":
+        t.rstrip(aggressive=op.get("aggressive", False))
+    elif n == "optimize_width":
+        t.optimize_width()
+    elif n == "transpose":
+        t.transpose(area_of(op["area"]) if op.get("area") else None)
+    elif n == "set_span":
+        aux["ret"] = t.set_span(area_of(op["area"]), merge=op.get("merge", False))
+    elif n == "del_span":
+        aux["ret"] = t.del_span(coord_of(op["c"]))
+    elif n == "live_row_rep":
+        t.get_row(op["y"], clone=False).repeated = op["k"]
+    elif n == "live_cell_rep":
+        t.get_cell(coord_of(op["c"]), clone=False).repeated = op["k"]
     else:
         raise ValueError(f"unknown op {n}")
+
+
+RAW_MUTATIONS = {"rstrip", "optimize_width", "transpose", "set_span", "del_span", "live_row_rep", "live_cell_rep"}
 
 
 def do_read(t, op):
@@ -562,14 +610,21 @@ def do_read(t, op):
 
 def apply_model(g: Grid, op, aux):
     n = op["op"]
+    again = op.get("again")
     if n == "set_value":
         g.set_cell(op["c"]["x"], op["c"]["y"], {"v": op["v"], "s": op.get("s")})
     elif n == "set_cell":
         g.set_cell(op["c"]["x"], op["c"]["y"], op["cell"])
+        if again:
+            g.set_cell(again["c"]["x"], again["c"]["y"], op["cell"])
     elif n == "insert_cell":
         g.insert_cell(op["c"]["x"], op["c"]["y"], op["cell"])
+        if again:
+            g.insert_cell(again["c"]["x"], again["c"]["y"], op["cell"])
     elif n == "append_cell":
         g.append_cell(op["y"], op["cell"])
+        if again:
+            g.append_cell(again["y"], op["cell"])
     elif n == "delete_cell":
         g.delete_cell(op["c"]["x"], op["c"]["y"])
     elif n in ("set_row", "insert_row", "append_row"):
@@ -578,10 +633,16 @@ def apply_model(g: Grid, op, aux):
         k = (rs.get("r", 1) or 1) if rs else 1
         if n == "set_row":
             g.set_row(op["y"], cells, k)
+            if again:
+                g.set_row(again["y"], cells, k)
         elif n == "insert_row":
             g.insert_row(op["y"], cells, k)
+            if again:
+                g.insert_row(again["y"], cells, k)
         else:
             g.append_row(cells, k)
+            if again:
+                g.append_row(cells, k)
     elif n == "delete_row":
         g.delete_row(op["y"])
     elif n == "extend_rows":
@@ -590,12 +651,14 @@ def apply_model(g: Grid, op, aux):
         g.set_row(op["y"], [cell_from_spec({"v": v}) for v in op["values"]], 1)
     elif n == "set_row_cells":
         g.set_row(op["y"], expand_cells(op["cells"]), 1)
+        if again:
+            g.set_row(again["y"], expand_cells(op["cells"]), 1)
     elif n == "set_values":
         c = op.get("c") or {"x": 0, "y": 0}
         g.set_values(c["x"], c["y"], op["values"])
     elif n == "set_cells":
         c = op.get("c") or {"x": 0, "y": 0}
-        g.set_cells(c["x"], c["y"], op["cells"])
+        g.set_cells(c["x"], c["y"], [op["cells"][0]] * len(op["cells"]) if op.get("share") else op["cells"])
     elif n == "set_column_values":
         g.set_column_cells(op["x"], [{"v": v} for v in op["values"]])
     elif n == "set_column_cells":
@@ -716,6 +779,8 @@ def features(op, tv: xmlref.TableView) -> list:
         if any(len(r) < W for r in tv.rows):
             f.add("some_row_short")
 
+    if op.get("again") or op.get("share"):
+        f.add("arg_reused")
     if tv.grouped_rows:
         f.add("has_row_group")
     if H == 0:
